@@ -25,7 +25,7 @@ CONSTANTS Part, MaxLen, ExportOn, SampleN
 (***************************************************************************)
 (* Part 1                                                                  *)
 (***************************************************************************)
-Alphabet == {"a", "QUOTE", "BACKSLASH", "n", "NEWLINE", " ", ";", "(", ")", ","}
+Alphabet == {"a", "QUOTE", "BACKSLASH", "n", "NEWLINE", " ", ";", "(", ")", ",", "TAB", "NUL", "COMBINING"}
 
 RECURSIVE Escape(_)
 Escape(s) ==
